@@ -1117,7 +1117,8 @@ Proof.
   intros s g. rewrite ref_parse_sound_complete. split.
   - intros (ts & a & El & HS & Hs). exists ts, a. split; [assumption|]. split; [assumption|].
     assert (Hex : exists g, sem a = inr g) by eauto. apply sem_accepts_iff in Hex.
-    destruct Hex as (H1 & H2 & H3). repeat split; try assumption; try apply H3.
+    destruct Hex as (H1 & H2 & H3).
+    split; [assumption|]. split; [assumption|]. split; [assumption|].
     exact (sem_accepts_value _ Hs).
   - intros (ts & a & El & HS & H1 & H2 & H3 & ->). exists ts, a. split; [assumption|]. split; [assumption|].
     assert (Hex : exists g, sem a = inr g) by (apply sem_accepts_iff; tauto).
